@@ -395,6 +395,24 @@ Definition check_power_plant (tol : Q) (p : plant) (eu : enduse) (amb : Q) (avai
   | Fail _ => false
   end.
 
+(* FirstLawEfficiency = NetElectricityProduced / HeatExtractedTowardsElectricity with the MODELLED heat towards electricity
+   (a series; a scalar in the bottoming cycle); steps where it is 0 (numpy yields inf/nan) carry no information *)
+Fixpoint fle_ok (tol : Q) (t : nat) (hete : arr) (net fle : list Q) : bool :=
+  match net, fle with
+  | [], [] => true
+  | x :: net', f :: fle' =>
+      let h := arr_at hete t in
+      (Qeq_bool h 0 || close tol (f * h) x) && fle_ok tol (S t) hete net' fle'
+  | _, _ => false
+  end.
+
+Definition check_fle (tol : Q) (p : plant) (eu : enduse) (amb : Q) (avail : list Q) (n m cp : Q) (tprod : list Q)
+           (tinj tchp eff chpf : Q) (net fle : list Q) : bool :=
+  match power_plant p eu amb avail n m cp tprod tinj tchp eff chpf with
+  | Ok (_, _, _, o) => fle_ok tol 0 (o_hete o) net fle
+  | Fail _ => false
+  end.
+
 (* conservation on reported series: heat towards electricity (= Net / FirstLawEfficiency) + useful heat / efficiency
    = heat extracted.  Steps whose reported efficiency is 0 carry no information and are skipped. *)
 Fixpoint conservation_terms (eff : Q) (hp net fle : list Q) : list Q :=
